@@ -86,6 +86,9 @@ PATHS = {
     "mod_ls": "do require List as Q; ls(Q) end",
     "mod_for": "do require Bitwise as Q; def r = []; "
                "for m in keys Q do append(r, m); end; r end",
+    # pairs given as sets have no first and second element
+    "map_of_set_pairs": "map([s, t])",
+    "map_of_set_pair": "map([<<'alpha', 'beta'>>, <<'gamma', 1>>])",
     "rand_seed0": "do set_seed(0); [random(1000), random(1000), random(1000)] end",
     "rand_seed22643": "do set_seed(22643); [random(1000), random(1000), random(1000)] end",
     "rand_seed1": "do set_seed(1); [random(), random(10), random(3, 9)] end",
